@@ -1,9 +1,170 @@
-//! c15 -- placeholder; implemented by the owning property module.
+//! c15 -- thin adapter over `sc62015_core::lcd::LcdController` (public API only).
+//!
+//! `c15.run` : {"histories": [{"ops": [...], "snap": bool}, ...]}
+//!   Every history starts from a fresh `LcdController::new()`.  Ops (JSON arrays):
+//!     ["w", addr, value]   LcdController::write
+//!     ["r", addr]          LcdController::read           -> "r": null | int
+//!     ["b"]                remember display_buffer() as the base; -> "b": 32 strings of 240 '0'/'1'
+//!     ["d"]                diff display_buffer() against the base -> "d": [row, col, value, ...]
+//!     ["v"]                export_snapshot() VRAM payload -> "x": hex string
+//!     ["cb"]               begin_display_write_capture
+//!     ["ct"]               take_display_write_capture    -> "c": [[page, col, value], ...]
+//!   With "snap": true every "w"/"r" result additionally carries the export_snapshot() view:
+//!     "s": [on, start_line, page, y_address] x 2 chips, "v": [index, value, ...] = bytes of the VRAM
+//!     payload that differ from the payload after the previous op (all-zero before the first op).
+//!   The harness holds no LCD semantics: diffs are an encoding of what the crate returned.
+use sc62015_core::lcd::{LcdController, LCD_DISPLAY_COLS, LCD_DISPLAY_ROWS};
 use serde_json::{json, Value};
 
 #[derive(Default)]
 pub struct State {}
 
-pub fn handle(verb: &str, _req: &Value, _st: &mut State) -> Value {
-    json!({"ok": false, "error": format!("c15.{verb} not implemented")})
+type Buf = [[u8; LCD_DISPLAY_COLS]; LCD_DISPLAY_ROWS];
+
+fn snap(lcd: &LcdController, prev: &mut Vec<u8>) -> (Value, Value) {
+    let (meta, payload) = lcd.export_snapshot();
+    let mut regs: Vec<Value> = Vec::with_capacity(8);
+    if let Some(chips) = meta.get("chips").and_then(|v| v.as_array()) {
+        for c in chips {
+            regs.push(c.get("on").cloned().unwrap_or(Value::Null));
+            regs.push(c.get("start_line").cloned().unwrap_or(Value::Null));
+            regs.push(c.get("page").cloned().unwrap_or(Value::Null));
+            regs.push(c.get("y_address").cloned().unwrap_or(Value::Null));
+        }
+    }
+    let mut delta: Vec<u32> = Vec::new();
+    if prev.len() != payload.len() {
+        // length change (never expected): ship everything, marked by a leading length entry
+        delta.push(0xFFFF_FFFF);
+        delta.push(payload.len() as u32);
+        for (i, b) in payload.iter().enumerate() {
+            delta.push(i as u32);
+            delta.push(*b as u32);
+        }
+    } else {
+        for (i, b) in payload.iter().enumerate() {
+            if prev[i] != *b {
+                delta.push(i as u32);
+                delta.push(*b as u32);
+            }
+        }
+    }
+    *prev = payload;
+    (Value::Array(regs), json!(delta))
+}
+
+fn run_history(h: &Value, out: &mut Vec<Value>) {
+    let mut lcd = LcdController::new();
+    let want_snap = h.get("snap").and_then(|v| v.as_bool()).unwrap_or(false);
+    let mut prev: Vec<u8> = vec![0u8; 2 * 8 * 64];
+    let mut base: Option<Buf> = None;
+    let empty = Vec::new();
+    let ops = h.get("ops").and_then(|v| v.as_array()).unwrap_or(&empty);
+    for op in ops {
+        let kind = op.get(0).and_then(|v| v.as_str()).unwrap_or("");
+        match kind {
+            "w" => {
+                let addr = op.get(1).and_then(|v| v.as_u64()).unwrap_or(0) as u32;
+                let val = op.get(2).and_then(|v| v.as_u64()).unwrap_or(0) as u8;
+                lcd.write(addr, val);
+                if want_snap {
+                    let (s, v) = snap(&lcd, &mut prev);
+                    out.push(json!({"s": s, "v": v}));
+                } else {
+                    out.push(json!({}));
+                }
+            }
+            "r" => {
+                let addr = op.get(1).and_then(|v| v.as_u64()).unwrap_or(0) as u32;
+                let r = lcd.read(addr);
+                if want_snap {
+                    let (s, v) = snap(&lcd, &mut prev);
+                    out.push(json!({"r": r, "s": s, "v": v}));
+                } else {
+                    out.push(json!({"r": r}));
+                }
+            }
+            "b" => {
+                let buf = lcd.display_buffer();
+                let rows: Vec<String> = buf
+                    .iter()
+                    .map(|row| row.iter().map(|p| if *p != 0 { '1' } else { '0' }).collect())
+                    .collect();
+                base = Some(buf);
+                out.push(json!({"b": rows}));
+            }
+            "d" => {
+                let buf = lcd.display_buffer();
+                let mut diff: Vec<u32> = Vec::new();
+                match &base {
+                    Some(b) => {
+                        for r in 0..LCD_DISPLAY_ROWS {
+                            for c in 0..LCD_DISPLAY_COLS {
+                                if b[r][c] != buf[r][c] {
+                                    diff.push(r as u32);
+                                    diff.push(c as u32);
+                                    diff.push(buf[r][c] as u32);
+                                }
+                            }
+                        }
+                        out.push(json!({"d": diff}));
+                    }
+                    None => out.push(json!({"error": "no base buffer"})),
+                }
+            }
+            "v" => {
+                let (_meta, payload) = lcd.export_snapshot();
+                let mut hex = String::with_capacity(payload.len() * 2);
+                for b in payload.iter() {
+                    hex.push_str(&format!("{:02x}", b));
+                }
+                out.push(json!({"x": hex}));
+            }
+            "cb" => {
+                lcd.begin_display_write_capture();
+                out.push(json!({}));
+            }
+            "ct" => {
+                let evs = lcd.take_display_write_capture();
+                let list: Vec<Value> = evs
+                    .iter()
+                    .map(|e| json!([e.page, e.col, e.value]))
+                    .collect();
+                out.push(json!({"c": list}));
+            }
+            _ => out.push(json!({"error": format!("unknown op {kind}")})),
+        }
+    }
+}
+
+pub fn handle(verb: &str, req: &Value, _st: &mut State) -> Value {
+    match verb {
+        "run" => {
+            let empty = Vec::new();
+            let hs = req.get("histories").and_then(|v| v.as_array()).unwrap_or(&empty);
+            let mut results: Vec<Value> = Vec::with_capacity(hs.len());
+            for h in hs {
+                // steps completed before a panic inside the crate are kept (the panic is the next step's result)
+                let mut steps: Vec<Value> = Vec::new();
+                let r = std::panic::catch_unwind(std::panic::AssertUnwindSafe(|| {
+                    run_history(h, &mut steps)
+                }));
+                match r {
+                    Ok(()) => results.push(json!({"steps": steps})),
+                    Err(e) => {
+                        let msg = if let Some(s) = e.downcast_ref::<&str>() {
+                            s.to_string()
+                        } else if let Some(s) = e.downcast_ref::<String>() {
+                            s.clone()
+                        } else {
+                            "panic".to_string()
+                        };
+                        results.push(json!({"steps": steps, "panic": msg}));
+                    }
+                }
+            }
+            json!({"ok": true, "results": results})
+        }
+        _ => json!({"ok": false, "error": format!("c15.{verb} not implemented")}),
+    }
 }
